@@ -1,4 +1,5 @@
 import ModbusModel.Lemmas.RtuFraming
+import ModbusModel.Lemmas.RtuNoise
 import ModbusModel.Lemmas.RoundTrip
 /-
   C11 – RTU framing delivers every clean frame and resynchronises after line noise.
@@ -21,41 +22,8 @@ theorem clean_frame_delivered (lenFn : Bytes → Res (Option Nat)) (fd : FrameDe
   rw [hb, frameDecode_on_split]
   simp [rd16_be16]
 
-/-- the bytes that can never be read as a function code by either length table -/
-def nonFc (b : UInt8) : Bool :=
-  b = 0x00 || b = 0x80 || (0x41 ≤ b && b ≤ 0x48) || (0x64 ≤ b && b ≤ 0x6E)
-
-/-- the function codes the request / response length tables have an entry for -/
-def reqArm (fc : UInt8) : Bool :=
-  (0x01 ≤ fc && fc ≤ 0x06) || fc = 0x07 || fc = 0x0B || fc = 0x0C || fc = 0x11 || fc = 0x0F || fc = 0x10
-    || fc = 0x16 || fc = 0x18 || fc = 0x17
-
-def rspArm (fc : UInt8) : Bool :=
-  (0x01 ≤ fc && fc ≤ 0x04) || fc = 0x0C || fc = 0x11 || fc = 0x17 || fc = 0x05 || fc = 0x06 || fc = 0x0B
-    || fc = 0x0F || fc = 0x10 || fc = 0x07 || fc = 0x16 || fc = 0x18 || (0x81 ≤ fc && fc ≤ 0xAB)
-
-theorem request_table_rejects (a b : UInt8) (rest : Bytes) (h : reqArm b = false) :
-    requestPduLen (a :: b :: rest) = .err .invalidData := by
-  simp only [reqArm, Bool.or_eq_false_iff, Bool.and_eq_false_iff, decide_eq_false_iff_not] at h
-  simp only [requestPduLen, List.getElem?_cons_succ, List.getElem?_cons_zero]
-  obtain ⟨⟨⟨⟨⟨⟨⟨⟨⟨h1, h2⟩, h3⟩, h4⟩, h5⟩, h6⟩, h7⟩, h8⟩, h9⟩, h10⟩ := h
-  have c1 : ¬ (1 ≤ b ∧ b ≤ 6) := by intro ⟨x, y⟩; rcases h1 with h1 | h1 <;> simp_all
-  simp [c1, h2, h3, h4, h5, h6, h7, h8, h9, h10]
-
-theorem response_table_rejects (a b : UInt8) (rest : Bytes) (h : rspArm b = false) :
-    responsePduLen (a :: b :: rest) = .err .invalidData := by
-  simp only [rspArm, Bool.or_eq_false_iff, Bool.and_eq_false_iff, decide_eq_false_iff_not] at h
-  simp only [responsePduLen, List.getElem?_cons_succ, List.getElem?_cons_zero]
-  obtain ⟨⟨⟨⟨⟨⟨⟨⟨⟨⟨⟨⟨h1, h2⟩, h3⟩, h4⟩, h5⟩, h6⟩, h7⟩, h8⟩, h9⟩, h10⟩, h11⟩, h12⟩, h13⟩ := h
-  have c1 : ¬ (1 ≤ b ∧ b ≤ 4) := by intro ⟨x, y⟩; rcases h1 with h1 | h1 <;> simp_all
-  have c2 : ¬ (0x81 ≤ b ∧ b ≤ 0xAB) := by intro ⟨x, y⟩; rcases h13 with h13 | h13 <;> simp_all
-  simp [c1, c2, h2, h3, h4, h5, h6, h7, h8, h9, h10, h11, h12]
-
-/-- a byte that can never be a function code has no entry in either table … -/
-theorem nonFc_no_arm : ∀ b : UInt8, nonFc b = true → reqArm b = false ∧ rspArm b = false := by
-  apply forall_u8; decide +kernel
-
-/-- … so both length tables reject it in the function-code position -/
+/-- a byte that is never a function code (0x00, 0x80, 0x41–0x48, 0x64–0x6E: `nonFc`) has no
+    entry in either length table, so both tables reject it in the function-code position -/
 theorem nonFc_rejected (a b : UInt8) (rest : Bytes) (hb : nonFc b = true) :
     requestPduLen (a :: b :: rest) = .err .invalidData
     ∧ responsePduLen (a :: b :: rest) = .err .invalidData :=
@@ -131,32 +99,86 @@ end Modbus.Props.C11
 namespace Modbus.Props.C11
 open Modbus
 
-/-- frames of typed requests within the limit are frames of the request-side RTU framing -/
-theorem request_frame_valid (slave : UInt8) (r : Request) (hs : requestPduSizeRaw r ≤ 253)
-    (ht : ∀ fc d, r ≠ .custom fc d) :
-    (rtuFraming requestPduLen requestPduLen_stable).Valid (rtuFrame slave (encodeRequestPdu r)) := by
-  refine ⟨slave, encodeRequestPdu r, rfl, ?_⟩
-  intro rest
-  have := request_table_agrees slave r rest hs ht
-  simpa [rtuFrame, List.append_assoc] using this
+/-- the response length table agrees with the encoder: for every typed response within the
+    PDU limit, the table names exactly the length of its encoding once the frame is there -/
+theorem response_table_agrees (slave : UInt8) (r : Response) (x : Bytes)
+    (hs : responsePduSizeRaw r ≤ 253) (ht : ∀ fc d, r ≠ .custom fc d) :
+    responsePduLen (slave :: encodeResponsePdu r ++ crcBytes (slave :: encodeResponsePdu r) ++ x)
+      = .ok (some (encodeResponsePdu r).length) := by
+  cases r with
+  | custom fc d => exact absurd rfl (ht fc d)
+  | writeSingleCoil a b => simp [responsePduLen, encodeResponsePdu, be16]
+  | writeMultipleCoils a q => simp [responsePduLen, encodeResponsePdu, be16]
+  | writeMultipleRegisters a q => simp [responsePduLen, encodeResponsePdu, be16]
+  | writeSingleRegister a w => simp [responsePduLen, encodeResponsePdu, be16]
+  | maskWriteRegister a am om => simp [responsePduLen, encodeResponsePdu, be16]
+  | readCoils cs =>
+    have hp : packedCoilsSize cs.length ≤ 251 := by simp [responsePduSizeRaw] at hs; omega
+    have e2 : (UInt8.ofNat (packedCoilsSize cs.length)).toNat = packedCoilsSize cs.length := by
+      simp [UInt8.toNat_ofNat']; omega
+    simp [responsePduLen, encodeResponsePdu, e2, packCoils_length]
+    omega
+  | readDiscreteInputs cs =>
+    have hp : packedCoilsSize cs.length ≤ 251 := by simp [responsePduSizeRaw] at hs; omega
+    have e2 : (UInt8.ofNat (packedCoilsSize cs.length)).toNat = packedCoilsSize cs.length := by
+      simp [UInt8.toNat_ofNat']; omega
+    simp [responsePduLen, encodeResponsePdu, e2, packCoils_length]
+    omega
+  | readInputRegisters ws =>
+    have hl : ws.length ≤ 125 := by simp [responsePduSizeRaw] at hs; omega
+    have e2 : (UInt8.ofNat (ws.length * 2)).toNat = ws.length * 2 := by simp [UInt8.toNat_ofNat']; omega
+    simp [responsePduLen, encodeResponsePdu, e2, encWords_length]
+    omega
+  | readHoldingRegisters ws =>
+    have hl : ws.length ≤ 125 := by simp [responsePduSizeRaw] at hs; omega
+    have e2 : (UInt8.ofNat (ws.length * 2)).toNat = ws.length * 2 := by simp [UInt8.toNat_ofNat']; omega
+    simp [responsePduLen, encodeResponsePdu, e2, encWords_length]
+    omega
+  | readWriteMultipleRegisters ws =>
+    have hl : ws.length ≤ 125 := by simp [responsePduSizeRaw] at hs; omega
+    have e2 : (UInt8.ofNat (ws.length * 2)).toNat = ws.length * 2 := by simp [UInt8.toNat_ofNat']; omega
+    simp [responsePduLen, encodeResponsePdu, e2, encWords_length]
+    omega
+  | reportServerId id run data =>
+    have hl : data.length ≤ 249 := by simp [responsePduSizeRaw] at hs; omega
+    have e1 : (UInt8.ofNat data.length).toNat = data.length := by simp [UInt8.toNat_ofNat']; omega
+    have e2 : (UInt8.ofNat (2 + data.length)).toNat = 2 + data.length := by simp [UInt8.toNat_ofNat']; omega
+    simp [responsePduLen, encodeResponsePdu, e1, e2]
+    omega
 
-/-- **rtu_chunking** (server side): any stream consisting of the frames of supported (typed)
-    requests, for any slave ids, cut into reads in any way with any `Pending`s in between and
-    followed by anything, is delivered by the RTU frame decoder completely, in order, each
-    frame exactly once; what follows stays in the reader. -/
-theorem rtu_chunking_requests (frames : List (UInt8 × Request)) (evs : List ReadEv) (tail : Bytes)
-    (hs : ∀ p ∈ frames, requestPduSizeRaw p.2 ≤ 253) (ht : ∀ p ∈ frames, ∀ fc d, p.2 ≠ .custom fc d)
+/-- … and with the exception encoder, for every function code the table knows as an exception -/
+theorem exception_table_agrees (slave fc code : UInt8) (x : Bytes) (h1 : 1 ≤ fc) (h2 : fc ≤ 0x2B) :
+    responsePduLen (slave :: [fc + 0x80, code] ++ crcBytes (slave :: [fc + 0x80, code]) ++ x) = .ok (some 2) := by
+  revert fc
+  have : ∀ fc : UInt8, 1 ≤ fc → fc ≤ 0x2B →
+      ¬ ((1 ≤ fc + 0x80 ∧ fc + 0x80 ≤ 4) ∨ fc + 0x80 = 0x0C ∨ fc + 0x80 = 0x11 ∨ fc + 0x80 = 0x17)
+      ∧ ¬ (fc + 0x80 = 0x05 ∨ fc + 0x80 = 0x06 ∨ fc + 0x80 = 0x0B ∨ fc + 0x80 = 0x0F ∨ fc + 0x80 = 0x10)
+      ∧ fc + 0x80 ≠ 0x07 ∧ fc + 0x80 ≠ 0x16 ∧ fc + 0x80 ≠ 0x18 ∧ (0x81 ≤ fc + 0x80 ∧ fc + 0x80 ≤ 0xAB) := by
+    apply forall_u8; decide +kernel
+  intro fc h1 h2
+  obtain ⟨a, b, c, d, e, f⟩ := this fc h1 h2
+  simp only [responsePduLen, List.cons_append, List.getElem?_cons_succ, List.getElem?_cons_zero]
+  simp [a, b, c, d, e, f]
+
+/-! ### every fragmentation -/
+
+/-- **rtu_chunking** (either direction, stated on PDUs): any stream of frames whose PDU length the
+    table infers, for any slave ids, cut into reads in any way with any `Pending`s in between
+    and followed by anything, is delivered completely, in order, each frame exactly once;
+    what follows stays in the reader. -/
+theorem rtu_chunking (lenFn : Bytes → Res (Option Nat)) (hst : PrefixStable lenFn)
+    (frames : List (UInt8 × Bytes)) (evs : List ReadEv) (tail : Bytes)
+    (hlen : ∀ p ∈ frames, ∀ rest, lenFn (rtuFrame p.1 p.2 ++ rest) = .ok (some p.2.length))
     (hfeed : ∀ e ∈ evs, e.isFeed = true)
-    (hdata : dataOf evs = (frames.map fun p => rtuFrame p.1 (encodeRequestPdu p.2)).flatten ++ tail) :
-    ∃ fd r' evs', pullN (rtuRawDecoder requestPduLen) frames.length {} {} evs
-        = (frames.map (fun p => .item (p.1, encodeRequestPdu p.2)), fd, r', evs')
+    (hdata : dataOf evs = (frames.map fun p => rtuFrame p.1 p.2).flatten ++ tail) :
+    ∃ fd r' evs', pullN (rtuRawDecoder lenFn) frames.length {} {} evs = (frames.map .item, fd, r', evs')
       ∧ r'.buffer ++ dataOf evs' = tail := by
-  let F := rtuFraming requestPduLen requestPduLen_stable
-  have hv : ∀ f ∈ frames.map (fun p => rtuFrame p.1 (encodeRequestPdu p.2)), F.Valid f := by
+  let F := rtuFraming lenFn hst
+  have hv : ∀ f ∈ frames.map (fun p => rtuFrame p.1 p.2), F.Valid f := by
     intro f hf
     obtain ⟨p, hp, rfl⟩ := List.mem_map.mp hf
-    exact request_frame_valid p.1 p.2 (hs p hp) (ht p hp)
-  have hne : ∀ f ∈ frames.map (fun p => rtuFrame p.1 (encodeRequestPdu p.2)), f ≠ [] := by
+    exact ⟨p.1, p.2, rfl, hlen p hp⟩
+  have hne : ∀ f ∈ frames.map (fun p => rtuFrame p.1 p.2), f ≠ [] := by
     intro f hf
     obtain ⟨p, _, rfl⟩ := List.mem_map.mp hf
     simp [rtuFrame]
@@ -164,24 +186,58 @@ theorem rtu_chunking_requests (frames : List (UInt8 × Request)) (evs : List Rea
   have r0q : ({} : ReadFrame).eof = false := rfl
   have r0b : ({} : ReadFrame).isReadable = false → ({} : ReadFrame).buffer = [] := fun _ => rfl
   have hd0 : ({} : ReadFrame).buffer ++ dataOf evs
-      = (frames.map fun p => rtuFrame p.1 (encodeRequestPdu p.2)).flatten ++ tail := by
+      = (frames.map fun p => rtuFrame p.1 p.2).flatten ++ tail := by
     show [] ++ dataOf evs = _
     rw [List.nil_append]; exact hdata
-  have H := stream_delivers (D := rtuRawDecoder requestPduLen) F
-    (frames.map fun p => rtuFrame p.1 (encodeRequestPdu p.2)) evs ({} : FrameDecoder) ({} : ReadFrame) tail
+  have H := stream_delivers (D := rtuRawDecoder lenFn) F
+    (frames.map fun p => rtuFrame p.1 p.2) evs ({} : FrameDecoder) ({} : ReadFrame) tail
   have H2 := H hv hne hfeed r0e r0q r0b hd0
   obtain ⟨s', r', evs', h1, h2, _⟩ := H2
   refine ⟨s', r', evs', ?_, h2⟩
-  have hitems : (frames.map fun p => rtuFrame p.1 (encodeRequestPdu p.2)).map (fun f => Polled.item (F.item f))
-      = frames.map (fun p => .item (p.1, encodeRequestPdu p.2)) := by
+  have hitems : (frames.map fun p => rtuFrame p.1 p.2).map (fun f => Polled.item (F.item f))
+      = frames.map .item := by
     rw [List.map_map]
     apply List.map_congr_left
     intro p _
     simp only [Function.comp]
     congr 1
-    exact rtuFraming_item requestPduLen requestPduLen_stable p.1 (encodeRequestPdu p.2)
+    exact rtuFraming_item lenFn hst p.1 p.2
   rw [hitems, List.length_map] at h1
   exact h1
+
+/-- **rtu_chunking** (server side): the frames of supported (typed) requests -/
+theorem rtu_chunking_requests (frames : List (UInt8 × Request)) (evs : List ReadEv) (tail : Bytes)
+    (hs : ∀ p ∈ frames, requestPduSizeRaw p.2 ≤ 253) (ht : ∀ p ∈ frames, ∀ fc d, p.2 ≠ .custom fc d)
+    (hfeed : ∀ e ∈ evs, e.isFeed = true)
+    (hdata : dataOf evs = (frames.map fun p => rtuFrame p.1 (encodeRequestPdu p.2)).flatten ++ tail) :
+    ∃ fd r' evs', pullN (rtuRawDecoder requestPduLen) frames.length {} {} evs
+        = (frames.map (fun p => .item (p.1, encodeRequestPdu p.2)), fd, r', evs')
+      ∧ r'.buffer ++ dataOf evs' = tail := by
+  have H := rtu_chunking requestPduLen requestPduLen_stable (frames.map fun p => (p.1, encodeRequestPdu p.2)) evs tail
+    (by
+      intro p hp rest
+      obtain ⟨q, hq, rfl⟩ := List.mem_map.mp hp
+      have := request_table_agrees q.1 q.2 rest (hs q hq) (ht q hq)
+      simpa [rtuFrame, List.append_assoc] using this)
+    hfeed (by simpa [List.map_map, Function.comp_def] using hdata)
+  simpa [List.map_map, Function.comp_def] using H
+
+/-- **rtu_chunking** (client side): the frames of supported (typed) responses -/
+theorem rtu_chunking_responses (frames : List (UInt8 × Response)) (evs : List ReadEv) (tail : Bytes)
+    (hs : ∀ p ∈ frames, responsePduSizeRaw p.2 ≤ 253) (ht : ∀ p ∈ frames, ∀ fc d, p.2 ≠ .custom fc d)
+    (hfeed : ∀ e ∈ evs, e.isFeed = true)
+    (hdata : dataOf evs = (frames.map fun p => rtuFrame p.1 (encodeResponsePdu p.2)).flatten ++ tail) :
+    ∃ fd r' evs', pullN (rtuRawDecoder responsePduLen) frames.length {} {} evs
+        = (frames.map (fun p => .item (p.1, encodeResponsePdu p.2)), fd, r', evs')
+      ∧ r'.buffer ++ dataOf evs' = tail := by
+  have H := rtu_chunking responsePduLen responsePduLen_stable (frames.map fun p => (p.1, encodeResponsePdu p.2)) evs tail
+    (by
+      intro p hp rest
+      obtain ⟨q, hq, rfl⟩ := List.mem_map.mp hp
+      have := response_table_agrees q.1 q.2 rest (hs q hq) (ht q hq)
+      simpa [rtuFrame, List.append_assoc] using this)
+    hfeed (by simpa [List.map_map, Function.comp_def] using hdata)
+  simpa [List.map_map, Function.comp_def] using H
 
 -- non-vacuity: two request frames cut into odd pieces
 example :
@@ -189,5 +245,182 @@ example :
       [.data [0x11, 0x03, 0x00], .pending, .data [0x6B, 0x00, 0x03, 0x76], .data [0x87, 0x01, 0x11],
        .data [0xC0, 0x2C]]).1
     = [.item (0x11, [0x03, 0x00, 0x6B, 0x00, 0x03]), .item (0x01, [0x11])] := by decide +kernel
+
+/-! ### resynchronisation -/
+
+/-- **rtu_resync, every fragmentation** (either direction, stated on PDUs): a stream of frames,
+    each preceded by up to 19 noise bytes that are never function codes (the frames' slave ids
+    being such bytes too), cut into reads in any way, is delivered completely and in order
+    with all the noise discarded.  (The property asks for 16; the retry limit of 20 gives 19.) -/
+theorem rtu_resync_chunking (lenFn : Bytes → Res (Option Nat)) (hT : NoiseTable lenFn)
+    (frames : List (Bytes × UInt8 × Bytes)) (evs : List ReadEv) (tail : Bytes)
+    (hnoise : ∀ p ∈ frames, (∀ b ∈ p.1, nonFc b = true) ∧ p.1.length ≤ 19 ∧ nonFc p.2.1 = true)
+    (hlen : ∀ p ∈ frames, ∀ rest, lenFn (rtuFrame p.2.1 p.2.2 ++ rest) = .ok (some p.2.2.length))
+    (hfeed : ∀ e ∈ evs, e.isFeed = true)
+    (hdata : dataOf evs = (frames.map fun p => p.1 ++ rtuFrame p.2.1 p.2.2).flatten ++ tail) :
+    ∃ fd r' evs', pullN (rtuRawDecoder lenFn) frames.length {} {} evs
+        = (frames.map (fun p => .item p.2), fd, r', evs')
+      ∧ r'.buffer ++ dataOf evs' = tail := by
+  let F := noisyFraming lenFn hT
+  let enc := fun p : Bytes × UInt8 × Bytes => p.1 ++ rtuFrame p.2.1 p.2.2
+  have hv : ∀ f ∈ frames.map enc, F.Valid f := by
+    intro f hf
+    obtain ⟨p, hp, rfl⟩ := List.mem_map.mp hf
+    obtain ⟨h1, h2, h3⟩ := hnoise p hp
+    exact ⟨p.1, p.2.1, p.2.2, h1, h2, h3, hlen p hp, rfl⟩
+  have hne : ∀ f ∈ frames.map enc, f ≠ [] := by
+    intro f hf
+    obtain ⟨p, _, rfl⟩ := List.mem_map.mp hf
+    simp [enc, rtuFrame]
+  have r0e : ({} : ReadFrame).hasErrored = false := rfl
+  have r0q : ({} : ReadFrame).eof = false := rfl
+  have r0b : ({} : ReadFrame).isReadable = false → ({} : ReadFrame).buffer = [] := fun _ => rfl
+  have hd0 : ({} : ReadFrame).buffer ++ dataOf evs = (frames.map enc).flatten ++ tail := by
+    show [] ++ dataOf evs = _
+    rw [List.nil_append]; exact hdata
+  have H := stream_delivers (D := rtuRawDecoder lenFn) F (frames.map enc) evs
+    ({} : FrameDecoder) ({} : ReadFrame) tail
+  have H2 := H hv hne hfeed r0e r0q r0b hd0
+  obtain ⟨s', r', evs', h1, h2, _⟩ := H2
+  refine ⟨s', r', evs', ?_, h2⟩
+  have hitems : (frames.map enc).map (fun f => Polled.item (F.item f))
+      = frames.map (fun p => .item p.2) := by
+    rw [List.map_map]
+    apply List.map_congr_left
+    intro p hp
+    simp only [Function.comp]
+    congr 1
+    obtain ⟨h1, h2, h3⟩ := hnoise p hp
+    exact noisyItem_eq lenFn hT p.1 p.2.1 p.2.2 h1 h2 h3 (hlen p hp)
+  rw [hitems, List.length_map] at h1
+  exact h1
+
+/-- … for the requests a server reads -/
+theorem rtu_resync_chunking_requests (frames : List (Bytes × UInt8 × Request)) (evs : List ReadEv) (tail : Bytes)
+    (hnoise : ∀ p ∈ frames, (∀ b ∈ p.1, nonFc b = true) ∧ p.1.length ≤ 19 ∧ nonFc p.2.1 = true)
+    (hs : ∀ p ∈ frames, requestPduSizeRaw p.2.2 ≤ 253) (ht : ∀ p ∈ frames, ∀ fc d, p.2.2 ≠ .custom fc d)
+    (hfeed : ∀ e ∈ evs, e.isFeed = true)
+    (hdata : dataOf evs = (frames.map fun p => p.1 ++ rtuFrame p.2.1 (encodeRequestPdu p.2.2)).flatten ++ tail) :
+    ∃ fd r' evs', pullN (rtuRawDecoder requestPduLen) frames.length {} {} evs
+        = (frames.map (fun p => .item (p.2.1, encodeRequestPdu p.2.2)), fd, r', evs')
+      ∧ r'.buffer ++ dataOf evs' = tail := by
+  have H := rtu_resync_chunking requestPduLen requestPduLen_noiseTable
+    (frames.map fun p => (p.1, p.2.1, encodeRequestPdu p.2.2)) evs tail
+    (by
+      intro p hp
+      obtain ⟨q, hq, rfl⟩ := List.mem_map.mp hp
+      exact hnoise q hq)
+    (by
+      intro p hp rest
+      obtain ⟨q, hq, rfl⟩ := List.mem_map.mp hp
+      have := request_table_agrees q.2.1 q.2.2 rest (hs q hq) (ht q hq)
+      simpa [rtuFrame, List.append_assoc] using this)
+    hfeed (by simpa [List.map_map, Function.comp_def] using hdata)
+  simpa [List.map_map, Function.comp_def] using H
+
+/-- … and for the responses a client reads -/
+theorem rtu_resync_chunking_responses (frames : List (Bytes × UInt8 × Response)) (evs : List ReadEv) (tail : Bytes)
+    (hnoise : ∀ p ∈ frames, (∀ b ∈ p.1, nonFc b = true) ∧ p.1.length ≤ 19 ∧ nonFc p.2.1 = true)
+    (hs : ∀ p ∈ frames, responsePduSizeRaw p.2.2 ≤ 253) (ht : ∀ p ∈ frames, ∀ fc d, p.2.2 ≠ .custom fc d)
+    (hfeed : ∀ e ∈ evs, e.isFeed = true)
+    (hdata : dataOf evs = (frames.map fun p => p.1 ++ rtuFrame p.2.1 (encodeResponsePdu p.2.2)).flatten ++ tail) :
+    ∃ fd r' evs', pullN (rtuRawDecoder responsePduLen) frames.length {} {} evs
+        = (frames.map (fun p => .item (p.2.1, encodeResponsePdu p.2.2)), fd, r', evs')
+      ∧ r'.buffer ++ dataOf evs' = tail := by
+  have H := rtu_resync_chunking responsePduLen responsePduLen_noiseTable
+    (frames.map fun p => (p.1, p.2.1, encodeResponsePdu p.2.2)) evs tail
+    (by
+      intro p hp
+      obtain ⟨q, hq, rfl⟩ := List.mem_map.mp hp
+      exact hnoise q hq)
+    (by
+      intro p hp rest
+      obtain ⟨q, hq, rfl⟩ := List.mem_map.mp hp
+      have := response_table_agrees q.2.1 q.2.2 rest (hs q hq) (ht q hq)
+      simpa [rtuFrame, List.append_assoc] using this)
+    hfeed (by simpa [List.map_map, Function.comp_def] using hdata)
+  simpa [List.map_map, Function.comp_def] using H
+
+theorem awaitNextFuel_congr {σ ι} (D : Decoder σ ι) (n : Nat) (s s' : σ) (r r' : ReadFrame) (a b : List ReadEv)
+    (h : pollNext D s r a = pollNext D s' r' b) :
+    awaitNextFuel D (n + 1) s r a = awaitNextFuel D (n + 1) s' r' b := by
+  rw [awaitNextFuel, awaitNextFuel, h]
+
+/-- **rtu_resync, byte by byte**: any amount of noise (bytes that are never function codes)
+    arriving one byte per read, followed by a frame (slave id such a byte too) in any
+    fragmentation, is discarded and the frame delivered by the very next `next().await`; what
+    follows the frame stays in the reader.  For both length tables. -/
+theorem rtu_resync_bytewise (lenFn : Bytes → Res (Option Nat)) (hT : NoiseTable lenFn)
+    (noise : Bytes) (slave : UInt8) (pdu : Bytes) (evs : List ReadEv) (tail : Bytes)
+    (hn : ∀ b ∈ noise, nonFc b = true) (hsl : nonFc slave = true)
+    (hlen : ∀ rest, lenFn (rtuFrame slave pdu ++ rest) = .ok (some pdu.length))
+    (hfeed : ∀ e ∈ evs, e.isFeed = true) (hdata : dataOf evs = rtuFrame slave pdu ++ tail) :
+    ∃ fd r' evs', awaitNext (rtuRawDecoder lenFn) {} {} (noise.map (fun b => ReadEv.data [b]) ++ evs)
+        = (.item (slave, pdu), fd, r', evs')
+      ∧ r'.buffer ++ dataOf evs' = tail := by
+  have r0 : Resync ({} : ReadFrame) := ⟨rfl, rfl, rfl, Or.inl rfl⟩
+  obtain ⟨fd1, r1, habs, hr1⟩ := pollNext_absorbs lenFn hT noise evs {} {} hn r0
+  let F := noisyFraming lenFn hT
+  have hheld : ∀ b ∈ r1.buffer, nonFc b = true := by
+    rcases hr1.held with h | ⟨y, hy, h⟩
+    · rw [h]; simp
+    · rw [h]; simpa using hy
+  have hheldlen : r1.buffer.length ≤ 19 := by
+    rcases hr1.held with h | ⟨y, _, h⟩ <;> rw [h] <;> simp
+  have hv : F.Valid (r1.buffer ++ rtuFrame slave pdu) :=
+    ⟨r1.buffer, slave, pdu, hheld, hheldlen, hsl, hlen, rfl⟩
+  have inv : FrameInv r1 (r1.buffer ++ rtuFrame slave pdu) :=
+    ⟨hr1.noErr, hr1.noEof, fun _ => ⟨⟨_, rfl⟩, by
+      intro e
+      have := congrArg List.length e
+      simp [rtuFrame] at this⟩⟩
+  have hd : r1.buffer ++ dataOf evs = (r1.buffer ++ rtuFrame slave pdu) ++ tail := by
+    rw [hdata, List.append_assoc]
+  have H := next_delivers_fuel F tail ((noise.map (fun b => ReadEv.data [b]) ++ evs).length + 1) evs fd1 r1
+    (r1.buffer ++ rtuFrame slave pdu) hv (by simp; omega) hfeed inv hd
+  obtain ⟨s', r', evs', h1, h2, _⟩ := H
+  refine ⟨s', r', evs', ?_, h2⟩
+  have hitem : F.item (r1.buffer ++ rtuFrame slave pdu) = (slave, pdu) :=
+    noisyItem_eq lenFn hT r1.buffer slave pdu hheld hheldlen hsl hlen
+  rw [hitem] at h1
+  unfold awaitNext
+  rw [awaitNextFuel_congr _ _ _ _ _ _ _ _ habs]
+  exact h1
+
+/-- the same for the requests a server reads -/
+theorem rtu_resync_bytewise_requests (noise : Bytes) (slave : UInt8) (r : Request) (evs : List ReadEv) (tail : Bytes)
+    (hn : ∀ b ∈ noise, nonFc b = true) (hsl : nonFc slave = true)
+    (hs : requestPduSizeRaw r ≤ 253) (ht : ∀ fc d, r ≠ .custom fc d)
+    (hfeed : ∀ e ∈ evs, e.isFeed = true)
+    (hdata : dataOf evs = rtuFrame slave (encodeRequestPdu r) ++ tail) :
+    ∃ fd r' evs', awaitNext (rtuRawDecoder requestPduLen) {} {} (noise.map (fun b => ReadEv.data [b]) ++ evs)
+        = (.item (slave, encodeRequestPdu r), fd, r', evs')
+      ∧ r'.buffer ++ dataOf evs' = tail :=
+  rtu_resync_bytewise requestPduLen requestPduLen_noiseTable noise slave (encodeRequestPdu r) evs tail hn hsl
+    (fun rest => by
+      have := request_table_agrees slave r rest hs ht
+      simpa [rtuFrame, List.append_assoc] using this)
+    hfeed hdata
+
+/-- … and for the responses a client reads -/
+theorem rtu_resync_bytewise_responses (noise : Bytes) (slave : UInt8) (r : Response) (evs : List ReadEv) (tail : Bytes)
+    (hn : ∀ b ∈ noise, nonFc b = true) (hsl : nonFc slave = true)
+    (hs : responsePduSizeRaw r ≤ 253) (ht : ∀ fc d, r ≠ .custom fc d)
+    (hfeed : ∀ e ∈ evs, e.isFeed = true)
+    (hdata : dataOf evs = rtuFrame slave (encodeResponsePdu r) ++ tail) :
+    ∃ fd r' evs', awaitNext (rtuRawDecoder responsePduLen) {} {} (noise.map (fun b => ReadEv.data [b]) ++ evs)
+        = (.item (slave, encodeResponsePdu r), fd, r', evs')
+      ∧ r'.buffer ++ dataOf evs' = tail :=
+  rtu_resync_bytewise responsePduLen responsePduLen_noiseTable noise slave (encodeResponsePdu r) evs tail hn hsl
+    (fun rest => by
+      have := response_table_agrees slave r rest hs ht
+      simpa [rtuFrame, List.append_assoc] using this)
+    hfeed hdata
+
+-- non-vacuity: 25 noise bytes one at a time, then a frame in two pieces
+example :
+    (awaitNext (rtuRawDecoder requestPduLen) {} {}
+      ((List.replicate 25 (0x80 : UInt8)).map (fun b => ReadEv.data [b]) ++ [.data ((rtuFrame 0x00 [0x11]).take 2), .data ((rtuFrame 0x00 [0x11]).drop 2)])).1
+      = .item (0x00, [0x11]) := by decide +kernel
 
 end Modbus.Props.C11
